@@ -79,6 +79,7 @@ func checkC12(c *Ctx) {
 	c.rule("OWN-import-write-once", "an imported node is written once, under its final key", 3)
 	checkImportWriteOnce(c, "OWN-import-write-once")
 	checkRebuildDecision(c, "PASS-index-maintenance")
+	checkRollbackDropsLabel(c, "PASS-rollback-drops-label")
 
 	callTo := func(fs ...*ssa.Function) func(ssa.Instruction) bool {
 		p := predStatic(fs...)
@@ -208,11 +209,64 @@ func checkOrphansDeleted(c *Ctx, rule string) {
 	} else {
 		// a deletion of the orphan's OWN storage key (built from its node key), as opposed to the
 		// additional clean-up of a legacy-root alias (built from its hash)
+		// ... and the node key it is built from is the orphan's own (the nodeKey field of the callback's
+		// parameter on every path), not a key synthesised from it: an orphan keyed (v,1) with v below the
+		// pruned version is either a re-keyed reference root or a single-leaf root that later trees reused
+		// as a child, and only the deletion of its own key removes the latter
+		getKey := l.Func("", "*NodeKey.GetKey")
+		nodeGetKey := l.Func("", "*Node.GetKey")
+		fNK := l.Field("", "Node", "nodeKey")
+		var isOwn func(v ssa.Value, depth int) bool
+		isOwn = func(v ssa.Value, depth int) bool {
+			v = stripTrivial(v)
+			if depth > 4 {
+				return false
+			}
+			switch x := v.(type) {
+			case *ssa.Phi:
+				for _, e := range x.Edges {
+					if !isOwn(e, depth+1) {
+						return false
+					}
+				}
+				return true
+			case *ssa.UnOp:
+				fa, ok := x.X.(*ssa.FieldAddr)
+				if !ok || fNK == nil || fieldVar(fa.X.Type(), fa.Field) != fNK {
+					return false
+				}
+				_, isParam := stripTrivial(fa.X).(*ssa.Parameter)
+				return isParam
+			}
+			return false
+		}
+		var builtFromOwn func(v ssa.Value, depth int) bool
+		builtFromOwn = func(v ssa.Value, depth int) bool {
+			v = stripTrivial(v)
+			call, ok := v.(*ssa.Call)
+			if !ok || depth > 4 {
+				return false
+			}
+			if getKey != nil && staticCallee(&call.Call) == getKey && len(call.Call.Args) > 0 {
+				return isOwn(call.Call.Args[0], 0)
+			}
+			// Node.GetKey of the orphan itself: its hash when legacy, its node key otherwise
+			if nodeGetKey != nil && staticCallee(&call.Call) == nodeGetKey && len(call.Call.Args) > 0 {
+				_, isParam := stripTrivial(call.Call.Args[0]).(*ssa.Parameter)
+				return isParam
+			}
+			for _, a := range call.Call.Args {
+				if builtFromOwn(a, depth+1) {
+					return true
+				}
+			}
+			return false
+		}
 		ownKey := func(in ssa.Instruction) bool {
 			if !callTo(dfp)(in) {
 				return false
 			}
-			return strings.Contains(roleOf(l, callCommon(in).Args[1], "", 0), "GetKey(")
+			return builtFromOwn(callCommon(in).Args[1], 0)
 		}
 		for _, cb := range dv.AnonFuncs {
 			q := mustState(cb, false, ownKey, nil)
@@ -230,7 +284,7 @@ func checkOrphansDeleted(c *Ctx, rule string) {
 					ok = false
 				}
 			}
-			c.decide(rule, l.fname(cb)+" deletes every orphan", l.pos(cb.Pos()), ok, "every non-error return passes a deletion of the orphan's own key", "the orphan callback can return success without deleting the orphan's own key (e.g. after only the legacy alias was removed): unreachable nodes accumulate")
+			c.decide(rule, l.fname(cb)+" deletes every orphan", l.pos(cb.Pos()), ok, "every non-error return passes a deletion of the orphan's own key", "the orphan callback can return success without deleting the orphan's own key (after only a legacy alias or a synthesised (version,0) key was removed): a single-leaf root that later trees reused as a child is stored under (v,1) and stays behind for good, which also keeps the deleted version v visible to the version search")
 		}
 	}
 }
